@@ -764,6 +764,10 @@ class Interp(object):
             ts = st.get("TimeoutSeconds", 99999999)
         key = (fn, canon(eff))
         if len(self.script.get(fn) or []) > 1:
+            if has_placeholder(eff):
+                # the payload contains text the model does not predict (a Cause), so the per-payload call index,
+                # and with it the scripted outcome, cannot be predicted either
+                self.flags.ambiguous_calls = True
             ln = self.key_lane.setdefault(key, self.lane)
             if ln != self.lane:
                 # the same (function, payload) is requested from two concurrent lanes: the call index,
